@@ -130,8 +130,10 @@ def gen_case(seed, tier='quick'):
               'bufsize': rng.choice([16, 64, 512, 8192])}
         if faulty and rng.random() < 0.45:
             k = rng.choice(['eio', 'enospc', 'torn', 'short', 'short',
-                            'interrupt'])
-            if k == 'interrupt':
+                            'interrupt', 'open', 'close'])
+            if k in ('open', 'close'):
+                op['fault'] = {'kind': k}
+            elif k == 'interrupt':
                 op['fault'] = {'kind': 'interrupt',
                                'frac': round(rng.uniform(0.0, 1.1), 3)}
             elif k == 'eio':
@@ -159,7 +161,9 @@ def gen_case(seed, tier='quick'):
         if use_child:
             op['child'] = True
         if faulty and rng.random() < 0.3:
-            if rng.random() < 0.5:
+            if rng.random() < 0.2:
+                op['fault'] = {'kind': 'open'}
+            elif rng.random() < 0.5:
                 op['fault'] = {'kind': 'eio', 'frac': round(rng.random(), 3)}
             else:
                 op['fault'] = {'kind': 'short', 'seed': rng.randrange(1 << 30)}
@@ -366,8 +370,13 @@ def _run(case, fs, amb):
             path = op['path']
             fault = op.get('fault')
             wf, short, at = None, None, None
+            of, cf = None, None
             if fault is not None:
-                if fault['kind'] == 'short':
+                if fault['kind'] == 'open':
+                    of = {'at': 1}
+                elif fault['kind'] == 'close':
+                    cf = {'writers_only': True}
+                elif fault['kind'] == 'short':
                     short = fault['seed']
                 elif fault['kind'] == 'interrupt':
                     # steps of a fault-free dry run decide where it lands
@@ -393,7 +402,7 @@ def _run(case, fs, amb):
                               size * fault['frac']))}
             before = dump_model(model)
             fs.reset_op(bufsize=op.get('bufsize'), write_fault=wf,
-                        short_seed=short)
+                        short_seed=short, open_fault=of, close_fault=cf)
             st = Stepper(interrupt_at=at)
             with st:
                 out = outcome_of(model.persist_to_json_file, path)
@@ -430,7 +439,8 @@ def _run(case, fs, amb):
                 if out == ['interrupt']:
                     bump('probe:persist_interrupted')
                 elif out[0] == 'exc' and not any(
-                        f in ('write_eio', 'write_enospc') for f in fired):
+                        f in ('write_eio', 'write_enospc', 'open_error',
+                              'close_error') for f in fired):
                     viol = fail('persist-raised', seq, path=path, outcome=out,
                                 state=state)
                 else:
@@ -445,7 +455,8 @@ def _run(case, fs, amb):
                 break
             snap = {'dump': dump_model(model), 'state': state,
                     'values': None, 'faulted': bool(
-                        set(fired) & {'write_eio', 'write_enospc'})}
+                        set(fired) & {'write_eio', 'write_enospc',
+                                      'open_error', 'close_error'})}
             if compiled:
                 snap['values'] = observe_undoing(model)
             else:
@@ -461,9 +472,11 @@ def _run(case, fs, amb):
                 continue
             snap = snaps.get(path)
             fault = op.get('fault')
-            rf, short = None, None
+            rf, short, rof = None, None, None
             if fault is not None:
-                if fault['kind'] == 'short':
+                if fault['kind'] == 'open':
+                    rof = {'at': 1}
+                elif fault['kind'] == 'short':
                     short = fault['seed']
                 else:
                     # count raw reads of a fault-free restore first
@@ -473,7 +486,7 @@ def _run(case, fs, amb):
                           'at': max(1, int(fs.raw_reads * fault['frac']))}
             # ---- restart: nothing survives but the bytes ------------------
             fs.reset_op(bufsize=op.get('bufsize'), read_fault=rf,
-                        short_seed=short)
+                        short_seed=short, open_fault=rof)
             if op.get('reuse'):
                 if 'obj' not in reuse:
                     reuse['obj'] = Model()
@@ -508,7 +521,7 @@ def _run(case, fs, amb):
                     pass
                 continue
             if out[0] != 'ok':
-                if 'read_eio' in fired:
+                if 'read_eio' in fired or 'open_error' in fired:
                     bump('probe:restore_failed_on_injected_error')
                     continue
                 viol = fail('restore-raised', seq, path=path, outcome=out,
